@@ -488,3 +488,169 @@ def all_paths_pass(fn, start_blocks, through_blocks):
     """every normal path from any start block to a return passes a block in through_blocks"""
     r = fn.reach(list(start_blocks), cut_blocks=set(through_blocks))
     return not (set(fn.returns()) & r)
+
+
+# ------------------------------------------------------------------------------------------
+# K3 field coverage
+
+def _aliases_of(fn, base):
+    """locals that hold `base` itself or a (re)borrow of the whole `*base` (no field projection)"""
+    al = {base}
+    changed = True
+    while changed:
+        changed = False
+        for st in fn.stmts:
+            if st.lhs in al or "." in st.lhs:
+                continue
+            if st.kind in ("use", "ref", "refmut") or st.kind.startswith("cast") or st.kind.startswith("rawptr"):
+                src = st.ops[0]
+                src = re.sub(r"^(move|copy) ", "", src)
+                root = src.split(".", 1)[0]
+                rest = src[len(root):]
+                if root in al and re.fullmatch(r"(\.\*)*", rest):
+                    al.add(st.lhs)
+                    changed = True
+        for c in fn.calls:
+            # deref/as_ref style pass-through keeps aliasing the whole object
+            if c.dest in al or not c.args:
+                continue
+            if re.search(r"(Deref>::deref|DerefMut>::deref_mut|::as_ref|::as_mut|BorrowMut>::borrow_mut|Borrow>::borrow)$",
+                         c.name):
+                a0 = re.sub(r"^(move|copy) ", "", c.args[0])
+                if a0 in al:
+                    al.add(c.dest)
+                    changed = True
+    return al
+
+
+def field_reads_of(F, fn, adt_path, base="_1", depth=3, _seen=None):
+    """set of keys 'field' / 'Variant.field' of ADT `adt_path` touched through `base` in fn, its closures and
+    (to `depth`) callees that receive the whole object."""
+    if _seen is None:
+        _seen = set()
+    if (fn.uid, base) in _seen:
+        return set()
+    _seen.add((fn.uid, base))
+    out = set()
+    pat = re.compile(r"(?:as<(\w+)>\.)?\{" + re.escape(adt_path) + r"::(\w+)\}")
+    texts = []
+    bodies = [fn] + F.closures_of(fn)
+    for g in bodies:
+        for st in g.stmts:
+            texts.append(st.lhs)
+            texts.extend(st.ops)
+        for c in g.calls:
+            texts.append(c.dest)
+            texts.extend(c.args)
+        for t in g.terms.values():
+            texts.extend(t)
+    for t in texts:
+        for m in pat.finditer(t):
+            out.add(m.group(2))
+            if m.group(1):
+                out.add(m.group(1) + "." + m.group(2))
+    if depth > 0:
+        al = _aliases_of(fn, base)
+        for c in fn.calls:
+            if c.indirect:
+                continue
+            for i, a in enumerate(c.args):
+                a0 = re.sub(r"^(move|copy) ", "", a)
+                if a0 in al:
+                    callee = F.fns.get(c.callee_uid())
+                    if callee is not None:
+                        out |= field_reads_of(F, callee, adt_path, "_%d" % (i + 1), depth - 1, _seen)
+    return out
+
+
+_VALUE_LEAF_EXEMPT = re.compile(
+    r"^(std::marker::PhantomData<|(starlark::)?values::layout::value::FrozenValue$|"
+    r"(starlark::)?values::layout::typed::FrozenValueTyped<|(starlark::)?values::types::any::FrozenAnyValue<|"
+    r"(starlark::)?values::types::any::AtomicFrozenAnyValueOption|"
+    r"(starlark::)?values::layout::typed::string::FrozenStringValue|"
+    r"(starlark::)?values::layout::heap::heap_type::(FrozenHeap|FrozenHeapRef|FrozenFrozenHeap)$)")
+
+
+_FNSIG = re.compile(r"(?<![A-Za-z_0-9])(Fn|FnMut|FnOnce|fn)\(")
+
+
+def strip_fn_sigs(ty):
+    """remove the parameter lists and return types of fn / Fn* signatures: nothing of those types is stored"""
+    if "Fn(" not in ty and "FnMut(" not in ty and "FnOnce(" not in ty and "fn(" not in ty:
+        return ty
+    out = []
+    i = 0
+    n = len(ty)
+    while i < n:
+        m = _FNSIG.match(ty, i)
+        if not m:
+            out.append(ty[i])
+            i += 1
+            continue
+        out.append(m.group(1))
+        j = m.end()
+        depth = 1
+        while j < n and depth:
+            if ty[j] in "([<":
+                depth += 1
+            elif ty[j] in ")]>":
+                depth -= 1
+            j += 1
+        if ty.startswith(" -> ", j):
+            j += 4
+            depth = 0
+            while j < n:
+                ch = ty[j]
+                if ch in "([<":
+                    depth += 1
+                elif ch in ")]>":
+                    if depth == 0:
+                        break
+                    depth -= 1
+                elif ch in ",+" and depth == 0:
+                    break
+                j += 1
+        i = j
+    return "".join(out)
+
+
+class ValueBearing:
+    """Does a type (string) structurally contain an unfrozen Value<'v>?"""
+
+    def __init__(s, F):
+        s.F = F
+        s.by = {}
+        for a in F.adts.values():
+            s.by[(a.crate, a.path)] = a
+            s.by[(None, a.qpath)] = a
+        s.memo = {}
+
+    def adt_for(s, crate, p):
+        return s.by.get((crate, p)) or s.by.get((None, p))
+
+    def ty(s, ty, crate, traced_params=(), seen=()):
+        if _VALUE_LEAF_EXEMPT.search(ty):
+            return False
+        ty = strip_fn_sigs(ty)
+        if re.search(r"(?<![A-Za-z_])Value<'", ty) or re.search(r"(?<![A-Za-z_])ValueTyped<'", ty) \
+                or re.search(r"(?<![A-Za-z_])ValueOf\w*<'", ty) or re.search(r"(?<![A-Za-z_])StringValue<'", ty) \
+                or re.search(r"(?<![A-Za-z_])ValueOfUnchecked<'", ty):
+            return True
+        for t in traced_params:
+            if re.search(r"(?<![A-Za-z_:0-9])%s(?![A-Za-z_0-9])" % re.escape(t), ty):
+                return True
+        for m in re.finditer(r"([A-Za-z_][A-Za-z0-9_]*(?:::[A-Za-z_][A-Za-z0-9_]*)+)", ty):
+            p = m.group(1)
+            a = s.adt_for(crate, p)
+            if a is not None and a.qpath not in seen:
+                if s.adt(a, seen + (a.qpath,)):
+                    return True
+        return False
+
+    def adt(s, a, seen=()):
+        if a.qpath in s.memo:
+            return s.memo[a.qpath]
+        s.memo[a.qpath] = False
+        r = any(s.ty(fd["ty"], a.crate, (), seen) for fd in a.fields)
+        s.memo[a.qpath] = r
+        return r
